@@ -59,7 +59,7 @@ def _worker(args):
         if not ix:
             return
         try:
-            signal.alarm(10 * len(ix) + 10)
+            signal.alarm(30 * len(ix) + 10)
             try:
                 out, orig, changed = _run([group[i] for i in ix], aval)
             finally:
